@@ -39,7 +39,7 @@ POSTCONDITION Accepted
 CHECK_DEADLOCK FALSE
 """
 
-C13_INV = ["Mutex", "LockLifetime", "ReaderUniform", "NoLostUpdate"]
+C13_INV = ["Mutex", "LockLifetime", "ReaderUniform", "NoLostUpdate", "SyncedEqualsView", "CleanPagesFresh"]
 C17_INV = ["ThreadsAgree", "ReaderUniform", "Mutex"]
 
 
@@ -47,7 +47,7 @@ def mc_file(wd, prop, tier):
     runs = []
     states = trans = 0
     if prop == "C13":
-        plans = [(["w1", "w2"], ["r1"], 3, 2, ["t1"], C13_INV, ["DiskOnlyInFlush"], "Spec")]
+        plans = [(["w1", "w2"], ["r1"], 3, 2, ["t1"], C13_INV, ["DiskOnlyInFlush", "CrashLeavesDisk"], "Spec")]
         plans.append((["w1", "w2"], ["r1"], 2, 1, ["t1"], [], ["OpenReturns"], "FairSpec"))
         if tier == "thorough":
             plans.append((["w1", "w2", "w3"], ["r1"], 3, 2, ["t1"], C13_INV, ["DiskOnlyInFlush"], "Spec"))
